@@ -17,7 +17,9 @@ type InjectedFault struct {
 	ID  int
 }
 
-func (f *InjectedFault) Error() string { return fmt.Sprintf("injected fault at probe %d (invocation %d)", f.ID, f.Seq) }
+func (f *InjectedFault) Error() string {
+	return fmt.Sprintf("injected fault at probe %d (invocation %d)", f.ID, f.Seq)
+}
 
 type faultKind int
 
@@ -45,15 +47,16 @@ type Invocation struct {
 // A Runtime with Record == false touches no memory when probes run, so its
 // helpers can sit in a context shared by concurrent tasks.
 type Runtime struct {
-	Prog   *Program
-	Record bool
-	Log    []Invocation
-	FailAt int // 1-based invocation number that fails, 0 = none
-	Kind   faultKind
-	Fault  *InjectedFault
-	Fired  bool
-	FiredK probeKind
-	FiredI Invocation
+	Prog    *Program
+	Record  bool
+	Log     []Invocation
+	FailAt  int // 1-based invocation number that fails, 0 = none
+	Kind    faultKind
+	Fault   *InjectedFault
+	Fired   bool
+	FiredK  probeKind
+	FiredI  Invocation
+	Variant int // data builder variant (C13/C14): equal variants build deep-equal data
 }
 
 type wrongKind struct{ why string }
@@ -90,8 +93,8 @@ type Inner struct {
 	Depth int
 }
 
-func (o *Obj) Add(a, b int) int       { return a + b }
-func (o *Obj) Greet(s string) string  { return "hi " + s }
+func (o *Obj) Add(a, b int) int      { return a + b }
+func (o *Obj) Greet(s string) string { return "hi " + s }
 func (o *Obj) PM(id int, v interface{}) (interface{}, error) {
 	if o.rt.enter(id, "", pkMethod) {
 		if o.rt.Kind == fkWrongKind {
@@ -106,15 +109,35 @@ var fixedTime = time.Date(2020, 2, 3, 4, 5, 6, 0, time.UTC)
 
 // contextData builds a fresh, deep-equal data map for one render.
 func (rt *Runtime) contextData() map[string]interface{} {
+	d := rt.plainData()
+	for k, v := range rt.helperData() {
+		d[k] = v
+	}
+	return d
+}
+
+// plainData is the value part of the context data.
+func (rt *Runtime) plainData() map[string]interface{} {
+	v := rt.Variant
 	d := map[string]interface{}{
-		"n1": 3, "n2": 7, "s1": "ab<c", "s2": "x y", "b1": true, "b0": false,
-		"xs":  []int{4, 5, 6},
+		"n1": 3 + v, "n2": 7, "s1": "ab<c" + strings.Repeat("!", v), "s2": "x y", "b1": true, "b0": false,
+		"xs":  []int{4 + v, 5, 6},
 		"ss":  []string{"p", "q&"},
 		"mi":  map[string]int{"k1": 1, "k2": 2, "k3": 3, "k4": 4},
 		"one": map[string]int{"only": 1},
 		"m1":  map[string]interface{}{"n": 5, "s": "str", "b": true},
 		"obj": &Obj{Name: "bot", N: 9, On: true, Tags: []string{"t1", "t<2"}, Nums: []int{1, 2, 3}, Inner: &Inner{Label: "in", Depth: 2}, rt: rt},
 		"tm":  fixedTime,
+	}
+	if rt.Prog != nil && rt.Prog.JS {
+		d["contentType"] = "application/javascript"
+	}
+	return d
+}
+
+// helperData is the function part: probes and the partial feeder.
+func (rt *Runtime) helperData() map[string]interface{} {
+	d := map[string]interface{}{
 		"pv": func(id int, v interface{}) (interface{}, error) {
 			if rt.enter(id, "", pkValue) {
 				if rt.Kind == fkWrongKind {
@@ -173,9 +196,6 @@ func (rt *Runtime) contextData() map[string]interface{} {
 			}
 			return s, nil
 		},
-	}
-	if rt.Prog != nil && rt.Prog.JS {
-		d["contentType"] = "application/javascript"
 	}
 	return d
 }
